@@ -381,3 +381,99 @@ Proof.
     rewrite Ha. destruct (cluster_addr_disjoint s x y G Hxy); lia. }
   apply Hgen. exact Hf.
 Qed.
+
+(** * the same for directory rewrites ([write_data_to_cluster] with erase, [write_dir]) *)
+Lemma erase_clusters_log cs : forall s s', erase_clusters s cs = Ok s' ->
+  exists l, s_log s' = l ++ s_log s /\ s_fat s' = s_fat s /\ s_hint s' = s_hint s /\ same_geo s s' /\
+    Forall (fun w => exists c, In c cs /\ fst w = cluster_addr s c /\ lenZ (snd w) = Z.max 0 (bpc s)) l.
+Proof.
+  induction cs as [|c r IH]; intros s s' H.
+  - inversion H; subst. exists []. split; [reflexivity|]. split; [reflexivity|]. split; [reflexivity|]. split; [apply same_geo_refl|constructor].
+  - cbn [erase_clusters] in H. destruct (write_at _ _ _) as [s1|] eqn:E; [|discriminate]. cbn [bind] in H.
+    apply write_at_ok in E. destruct E as [_ E]. apply IH in H. destruct H as (l & Hl & Hf & Hh & Hg & Hall).
+    exists (l ++ [(cluster_addr s c, zeros (bpc s))]). split; [rewrite Hl, E; cbn [s_log upd_dev]; rewrite <- app_assoc; reflexivity|].
+    split; [rewrite Hf, E; reflexivity|]. split; [rewrite Hh, E; reflexivity|].
+    split; [eapply same_geo_trans; [|exact Hg]; rewrite E; repeat split|].
+    apply Forall_app. split.
+    + eapply Forall_impl; [|exact Hall]. cbv beta. intros w (x & Hx & Ha & Hb). exists x. rewrite E in Ha, Hb. split; [right; exact Hx|]. split; assumption.
+    + constructor; [|constructor]. exists c. split; [left; reflexivity|]. split; [reflexivity|]. cbn [snd]. unfold lenZ, zeros. rewrite repeat_length. lia.
+Qed.
+
+Theorem dir_write_log s data c e s' ch :
+  dev_ok (s_dev s) -> geom_ok s -> vt (ft s) -> 0 <= s_hint s ->
+  chain s c = (ch, true) -> Forall (inside s) ch -> vol_ok s ->
+  write_data_to_cluster s data c e = Ok s' ->
+  exists l, s_log s' = l ++ s_log s /\
+    Forall (fun w => exists x, (In x ch \/ nthZ (s_fat s) x = 0) /\ inside s x /\ fst w = cluster_addr s x /\ lenZ (snd w) <= bpc s) l.
+Proof.
+  intros Hd G Hv Hh Hch Hin Hvol Hw.
+  destruct (vt_consts _ Hv) as (Hmin & Hfree & Hmax & _).
+  assert (HB : 0 < bpc s) by (destruct G as (G1 & G2 & _ & G4 & _); nia).
+  unfold write_data_to_cluster in Hw. destruct (s_ro s) eqn:Ero; [discriminate|]. rewrite Hch in Hw. cbv zeta in Hw.
+  destruct (Z.max 1 (ceil_div (lenZ data) (bpc s)) <=? lenZ ch) eqn:En.
+  - cbn [bind] in Hw. rewrite Hch in Hw. assert (HB0 : 0 <= bpc s) by lia. destruct (write_chunks_log ch s _ s' HB0 Hw) as (l & Hl & Hf). exists l. split; [exact Hl|].
+    eapply Forall_impl; [|exact Hf]. cbv beta. intros w (x & Hx & Ha & Hb). exists x. rewrite Forall_forall in Hin. auto.
+  - cbn [negb] in Hw. destruct (allocate s (lenZ data - lenZ ch * bpc s) e) as [[new s2]|] eqn:Ea; [|discriminate]. cbn [bind] in Hw.
+    destruct (allocate_sound _ _ _ _ _ Hh Ea) as [(Hn & Hs & Hf)|?]; [|lia].
+    pose proof (allocate_fat _ _ _ _ _ Ea) as Hfat.
+    destruct (allocate_dev _ _ _ _ _ Hd G Hh ltac:(lia) Ea) as [_ Hg2]. destruct (same_geo_facts _ _ Hg2) as (Ea2 & Eb2 & Et2 & _ & _).
+    (* the log of the allocation: the erasing writes, if any *)
+    assert (Hlog2 : exists l2, s_log s2 = l2 ++ s_log s /\ Forall (fun w => exists x, In x new /\ fst w = cluster_addr s x /\ lenZ (snd w) <= bpc s) l2).
+    { unfold allocate in Ea. rewrite Ero in Ea. destruct (alloc_scan _ _ _ _ _ _) as [l0 j]. destruct (negb _); [discriminate|]. destruct e.
+      - destruct (erase_clusters _ l0) as [s3|] eqn:Ee; [|discriminate]. cbn [bind] in Ea. inversion Ea; subst.
+        destruct (erase_clusters_log _ _ _ Ee) as (l2 & A & _ & _ & _ & B). exists l2. split; [exact A|].
+        eapply Forall_impl; [|exact B]. cbv beta. intros w (x & Hx & Ha & Hb). exists x. split; [exact Hx|]. split; [exact Ha|]. change (bpc (upd_fat s _ _)) with (bpc s) in Hb. lia.
+      - inversion Ea; subst. exists []. split; [reflexivity|constructor]. }
+    destruct Hlog2 as (l2 & Hl2 & Hf2).
+    set (s1 := upd_fat s2 (updZ (s_fat s2) (last ch 0) (hd 0 new)) (s_hint s2)) in *.
+    assert (Hch1' : 1 <= lenZ ch) by (pose proof (chain_go_nonempty _ _ _ _ _ Hch); destruct ch; [congruence|unfold lenZ; cbn [length]; lia]).
+    assert (Hbig : lenZ ch * bpc s < lenZ data).
+    { destruct (Z_lt_dec (lenZ ch * bpc s) (lenZ data)) as [?|Hnl]; [assumption|]. pose proof (ceil_div_le (lenZ data) (bpc s) (lenZ ch) HB ltac:(lia)). lia. }
+    assert (Hnn : 1 <= lenZ new).
+    { rewrite Hn. unfold Gen.calc_num_clusters. cbv zeta. fold (bpc s). unfold ceil_div. apply Z.div_le_lower_bound; [exact HB|]. nia. }
+    assert (Hne : new <> []) by (intro; subst new; unfold lenZ in Hnn; cbn in Hnn; lia).
+    assert (Hch1 : chain s1 c = (ch ++ new, true)).
+    { unfold chain, s1. cbn [s_fat upd_fat]. replace (ft (upd_fat s2 _ _)) with (ft s) by (rewrite <- Et2; reflexivity).
+      rewrite Hfat. apply extend_chain; try assumption.
+      eapply Forall_impl; [|exact Hf]. cbv beta. intros a Ha. rewrite Hfree in Ha. lia. }
+    rewrite Hch1 in Hw.
+    assert (Hg1 : same_geo s s1) by (destruct Hg2 as (A & B & C & D); repeat split; assumption).
+    destruct (same_geo_facts _ _ Hg1) as (Ea1 & Eb1 & _ & _ & _).
+    assert (HB1 : 0 <= bpc s1) by (rewrite Eb1; lia).
+    destruct (write_chunks_log (ch ++ new) s1 _ s' HB1 Hw) as (l0 & Hl0 & Hf0).
+    exists (l0 ++ l2). split; [rewrite Hl0; unfold s1; cbn [s_log upd_fat]; rewrite Hl2, app_assoc; reflexivity|].
+    assert (Hnewin : forall x, In x new -> nthZ (s_fat s) x = 0 /\ inside s x).
+    { intros x Hx. rewrite Forall_forall in Hf. specialize (Hf x Hx). split; [rewrite Hfree in Hf; lia|apply Hvol; lia]. }
+    apply Forall_app. split.
+    + eapply Forall_impl; [|exact Hf0]. cbv beta. intros w (x & Hx & Ha & Hb). exists x. rewrite Ea1 in Ha. rewrite Eb1 in Hb.
+      apply in_app_or in Hx. destruct Hx as [Hx|Hx].
+      * rewrite Forall_forall in Hin. auto.
+      * destruct (Hnewin x Hx). auto.
+    + eapply Forall_impl; [|exact Hf2]. cbv beta. intros w (x & Hx & Ha & Hb). exists x. destruct (Hnewin x Hx). auto.
+Qed.
+
+Theorem dir_crash s data c e s' ch :
+  dev_ok (s_dev s) -> geom_ok s -> vt (ft s) -> 0 <= s_hint s ->
+  chain s c = (ch, true) -> Forall (inside s) ch -> vol_ok s ->
+  write_data_to_cluster s data c e = Ok s' ->
+  exists l, s_log s' = l ++ s_log s /\
+    forall keep y, 2 <= y -> ~ In y ch -> nthZ (s_fat s) y <> 0 -> inside s y ->
+      dread (apply_some (s_dev s) l keep) (s_dsize s) (cluster_addr s y) (bpc s) = rd s (cluster_addr s y) (bpc s).
+Proof.
+  intros Hd G Hv Hh Hch Hin Hvol Hw.
+  destruct (dir_write_log s data c e s' ch Hd G Hv Hh Hch Hin Hvol Hw) as (l & Hl & Hf).
+  exists l. split; [exact Hl|]. intros keep y Hy Hnin Hnz Hiy.
+  assert (Hgen : forall l0, Forall (fun w => exists x, (In x ch \/ nthZ (s_fat s) x = 0) /\ inside s x /\ fst w = cluster_addr s x /\ lenZ (snd w) <= bpc s) l0 ->
+            forall keep0, dev_ok (apply_some (s_dev s) l0 keep0) /\
+            dread (apply_some (s_dev s) l0 keep0) (s_dsize s) (cluster_addr s y) (bpc s) = rd s (cluster_addr s y) (bpc s)).
+  { induction l0 as [|w r IH]; intros Hf0 keep0; [destruct keep0; split; try exact Hd; reflexivity|].
+    destruct keep0 as [|k kr]; [split; [exact Hd|reflexivity]|]. cbn [apply_some]. cbv zeta.
+    inversion Hf0 as [|? ? (x & Hx & Hix & Ha & Hb) Hr]; subst. destruct (IH Hr kr) as [Hdk Hrk].
+    destruct k; [|split; assumption].
+    assert (Hxy : x <> y) by (intro; subst x; destruct Hx as [Hx|Hx]; [contradiction|lia]).
+    destruct Hix as [Hx2 _].
+    split; [apply dwrite_spec; [exact Hdk|rewrite Ha; apply cluster_addr_nonneg; assumption]|].
+    rewrite read_elsewhere; [exact Hrk|exact Hdk|rewrite Ha; apply cluster_addr_nonneg; assumption|apply cluster_addr_nonneg; assumption|].
+    rewrite Ha. destruct (cluster_addr_disjoint s x y G Hxy); lia. }
+  apply Hgen. exact Hf.
+Qed.
